@@ -41,6 +41,8 @@ const (
 	seqC12
 	seqC18
 	seqC10
+	seqC11
+	seqC20
 )
 
 var seqRoles = map[string]string{"alice": "admin", "bob": "user", "carol": "user", "dave": "guest", "": ""}
@@ -156,6 +158,8 @@ func genSeqOps(g *Rand, fl seqFlavour, nslots, n int, thorough bool) []SOp {
 			w = []int{3, 4, 5, 3, 3, 5, 3, 3, 2, 1, 1, 12}
 		case seqC10:
 			w = []int{2, 2, 6, 3, 8, 6, 3, 8, 5, 2, 3, 3}
+		case seqC11:
+			w = []int{2, 2, 6, 4, 7, 6, 4, 7, 5, 2, 3, 6}
 		default:
 			w = []int{2, 3, 5, 3, 6, 6, 3, 7, 5, 2, 3, 0}
 		}
@@ -198,6 +202,9 @@ func genSeqOps(g *Rand, fl seqFlavour, nslots, n int, thorough bool) []SOp {
 		case "unsub":
 			op.K = g.Intn(8)
 			op.Var = g.Weighted(6, 2, 1)
+			if fl == seqC11 && g.Chance(1, 3) {
+				op.Var = 3
+			}
 		case "pub":
 			op.URI = c01Topics[g.Intn(len(c01Topics))]
 			if g.Chance(1, 12) {
@@ -238,6 +245,9 @@ func genSeqOps(g *Rand, fl seqFlavour, nslots, n int, thorough bool) []SOp {
 		case "unreg":
 			op.K = g.Intn(8)
 			op.Var = g.Weighted(6, 2, 1)
+			if fl == seqC11 && g.Chance(1, 3) {
+				op.Var = 3
+			}
 		case "call":
 			op.URI = g.Pick("p.a", "p.a.b", "p.b", "p.a.b.c", "p.a.x", "p.x.b", "p.a.b.c.d", "q.none", "x.a.b")
 			op.Opts = wamp.Dict{}
@@ -257,6 +267,9 @@ func genSeqOps(g *Rand, fl seqFlavour, nslots, n int, thorough bool) []SOp {
 		case "yield":
 			op.K = g.Intn(8)
 			op.Var = g.Weighted(8, 2, 1)
+			if fl == seqC11 && g.Chance(1, 4) {
+				op.Var = 3
+			}
 			op.Prog = g.Chance(1, 4)
 			op.Args = wamp.List{fmt.Sprintf("y%d", uniq)}
 			if g.Chance(1, 3) {
@@ -272,6 +285,9 @@ func genSeqOps(g *Rand, fl seqFlavour, nslots, n int, thorough bool) []SOp {
 		case "cancel":
 			op.K = g.Intn(8)
 			op.Var = g.Weighted(6, 2, 1)
+			if fl == seqC11 && g.Chance(1, 4) {
+				op.Var = 3
+			}
 			op.Opts = wamp.Dict{}
 			if g.Chance(3, 4) {
 				op.Opts["mode"] = g.Pick("skip", "kill", "killnowait", "bogus")
@@ -329,8 +345,17 @@ func runSeq(c *Ctx, fl seqFlavour) {
 		}
 		rc.Authorizer = authz
 		rc.RequireLocalAuthz = g.Chance(1, 3)
+		rc.RequireLocalAuth = g.Chance(1, 3)
 	}
-	w, err := NewWorld(c.S, &router.Config{RealmConfigs: []*router.RealmConfig{rc}})
+	rcfg := &router.Config{RealmConfigs: []*router.RealmConfig{rc}}
+	if (fl == seqC10 || fl == seqC18) && g.Chance(1, 3) {
+		// the realm comes into existence from the template when the first session asks for it
+		t := *rc
+		t.URI = "template"
+		rcfg = &router.Config{RealmTemplate: &t}
+		c.Probe("realm_from_template")
+	}
+	w, err := NewWorld(c.S, rcfg)
 	if err != nil {
 		c.Res.Tooling = "NewRouter: " + err.Error()
 		return
